@@ -31,7 +31,7 @@ Print Assumptions memo_transparent.
 
 (* ---- the predefined month macros ---- *)
 
-(* FULL STATEMENT (refuted by the faithful model, finding F27):
+(* FULL STATEMENT (refuted by the faithful model, finding F28):
      forall cap fmt cos, h_get (g_heap (final cap fmt G0 cos)) 0 = mkCell false month_names *)
 Theorem month_names_invariant_refuted :
   exists cap fmt cos, h_get (g_heap (final cap fmt G0 cos)) 0 <> mkCell false month_names.
@@ -56,7 +56,7 @@ Theorem readers_isolated : forall cap fmt g g' c macros files,
 Proof. exact parse_isolated_lemma. Qed.
 Print Assumptions readers_isolated.
 
-(* ... and after any history (without the F27 call) it is what the initial state gives under the
+(* ... and after any history (without the F28 call) it is what the initial state gives under the
    same reporting settings *)
 Theorem parse_history_independent_partial : forall cap fmt cos c macros files,
   Forall (fun co => safe_op (snd co)) cos ->
@@ -66,14 +66,14 @@ Proof. exact parse_history_independent_lemma. Qed.
 Print Assumptions parse_history_independent_partial.
 
 (* in the default (strict) reporting mode nothing is left over at all: after any history that does
-   not switch strict mode off (failed runs, capture() blocks, the F27 call ... included) the three
+   not switch strict mode off (failed runs, capture() blocks, the F28 call ... included) the three
    errors-module cells are exactly as in a fresh process *)
 Theorem strict_mode_cells_untouched : forall cap fmt cos,
   Forall (fun co => keeps_strict (snd co)) cos -> g_err (final cap fmt G0 cos) = errs0.
 Proof. exact run_errs0. Qed.
 Print Assumptions strict_mode_cells_untouched.
 
-(* ... hence a fresh reader returns exactly what it returns in a fresh process (F27 call excluded) *)
+(* ... hence a fresh reader returns exactly what it returns in a fresh process (F28 call excluded) *)
 Theorem parse_history_independent_strict_partial : forall cap fmt cos c macros files,
   Forall (fun co => safe_op (snd co) /\ keeps_strict (snd co)) cos ->
   snd (step cap fmt (final cap fmt G0 cos) (c, OParse macros files)) = snd (step cap fmt G0 (c, OParse macros files)).
@@ -113,7 +113,7 @@ Print Assumptions history_independence_value_refuted.
 
 (* when name formatting reports nothing (no name with more than two commas), the complete outcome
    of a format.name$ call -- value or exception, warnings, captured problems -- after ANY history
-   (including the F27 call, more distinct calls than the caches hold, failed runs, mode switches)
+   (including the F28 call, more distinct calls than the caches hold, failed runs, mode switches)
    is its outcome in a fresh process, for every cache capacity *)
 Theorem format_name_history_independent_partial : forall cap fmt cos c names n format,
   0 < cap -> quiet fmt ->
